@@ -25,34 +25,41 @@ pub enum WaitStatus { Exited(Pid, i32), Other }
 pub enum StopReason { DebugeeExit(i32), DebugeeStart, Other }
 pub struct Signal(pub i32);
 
-pub struct Tracee { pub pid: Pid }
+pub struct Tracee { pub pid: Pid, pub stopped_: bool }
 impl Tracee {
     #[verifier::external_body]
     pub fn wait_one(&self) -> (r: Result<WaitStatus, DbgError>) { unimplemented!() }
     #[verifier::external_body]
-    pub fn set_stop(&mut self, t: StopType) ensures final(self).pid == old(self).pid, { unimplemented!() }
+    pub fn set_stop(&mut self, t: StopType) ensures final(self).pid == old(self).pid, final(self).stopped_, { unimplemented!() }
     #[verifier::external_body]
     pub fn r#continue(&mut self, sig: Option<Signal>) -> (r: Result<(), DbgError>) ensures final(self).pid == old(self).pid, { unimplemented!() }
 }
 
-pub struct TraceeCtl { pub table: Ghost<Set<Pid>>, pub process_pid: Pid }
+pub struct TraceeCtl { pub table: Ghost<Set<Pid>>, pub process_pid: Pid,
+    /// ghost: which threads the tracer believes to be stopped (meaningful for members of `table`)
+    pub marks: Ghost<Map<Pid, bool>> }
 impl TraceeCtl {
     #[verifier::external_body]
     pub fn add(&mut self, pid: Pid) -> (r: &Tracee)
         ensures final(self).table@ == old(self).table@.insert(pid), final(self).process_pid == old(self).process_pid, r.pid == pid,
+            final(self).marks@ == old(self).marks@.insert(pid, true),   // Tracee::new_stopped
     { unimplemented!() }
     #[verifier::external_body]
     pub fn remove(&mut self, pid: Pid) -> (r: Option<Tracee>)
         ensures final(self).table@ == old(self).table@.remove(pid), final(self).process_pid == old(self).process_pid,
             r is Some == old(self).table@.contains(pid), r is Some ==> r->Some_0.pid == pid,
+            forall|p: Pid| p != pid ==> #[trigger] final(self).marks@[p] == old(self).marks@[p],
     { unimplemented!() }
     #[verifier::external_body]
     pub fn tracee_mut(&mut self, pid: Pid) -> (r: Option<&mut Tracee>)
         ensures final(self).table@ == old(self).table@, final(self).process_pid == old(self).process_pid, r is Some == old(self).table@.contains(pid),
+            r is Some ==> r->Some_0.pid == pid && r->Some_0.stopped_ == old(self).marks@[pid] && final(self).marks@ == old(self).marks@.insert(pid, final(r->Some_0).stopped_),
+            r is None ==> final(self).marks@ == old(self).marks@,
     { unimplemented!() }
     #[verifier::external_body]
     pub fn tracee_ensure_mut(&mut self, pid: Pid) -> (r: &mut Tracee)
         ensures final(self).table@ == old(self).table@, final(self).process_pid == old(self).process_pid,
+            r.pid == pid && final(self).marks@ == old(self).marks@.insert(pid, final(r).stopped_),
     { unimplemented!() }
     #[verifier::external_body]
     pub fn proc_pid(&self) -> (r: Pid) ensures r == self.process_pid, { unimplemented!() }
@@ -94,6 +101,9 @@ impl Tracer {
             r is Ok && code == 4 ==> final(self).tracee_ctl.table@ == old(self).tracee_ctl.table@.insert(pid) && r->Ok_0 is Some && r->Ok_0->Some_0 is DebugeeStart, /*@@E_exec*/
             // any other event leaves the table alone
             r is Ok && code != 3 && code != 4 && code != 6 && code != 128 ==> final(self).tracee_ctl.table@ == old(self).tracee_ctl.table@, /*@@E_other*/
+            // a clone event stops the PARENT; the mark of every other thread that is already known stays what it was
+            // (a thread that registered itself with PTRACE_EVENT_STOP before its parent's clone event may be running again)
+            r is Ok && code == 3 ==> forall|p: Pid| old(self).tracee_ctl.table@.contains(p) && p != pid ==> #[trigger] final(self).tracee_ctl.marks@[p] == old(self).tracee_ctl.marks@[p], /*@@E_clone_marks*/
             // only exec is reported as a stop
             r is Ok && code != 4 ==> r->Ok_0 is None, /*@@E_silent*/
     {
